@@ -23,7 +23,7 @@ import vlib
 LEVEL = "model_checking"
 JUDGE = "OptionsJudge"
 JUDGE_CFG = "OptionsJudge.cfg"
-NPARTS_SRC = 12     # generated translation units
+NPARTS_SRC = 16     # generated translation units
 GEN_DIR = os.path.join(vlib.BUILD, "gen", "c03")
 
 
@@ -94,6 +94,11 @@ def model_check(ctx, js, thorough):
     jobs += [("bug", "MC_Options_bug_names_%s.cfg" % b, mc_env(), 1, "OptionValueNotPositional")
              for b in ("sum_left_only", "sum_right_only", "product_left_only", "product_right_only",
                        "optional_none", "many_none")]
+    # ... an argument reporting "nothing left" as an other error must break the error-kind law, and
+    # the reference usage renderer with a defect must break the structural usage requirements
+    jobs += [("bug", "MC_Options_bug_kind.cfg", mc_env(), 1, "ErrorKindLaw")]
+    jobs += [("bug", "MC_Options_bug_usage_%s.cfg" % b, mc_env(), 1, "UsageModelOK")
+             for b in ("product_drops_right", "optional_no_brackets", "flag_no_short", "no_default")]
     # (c) stronger readings, for information
     jobs += [("obs", "MC_Options_obs_dropped.cfg", mc_env(), 1, "ObsNothingDropped"),
              ("obs", "MC_Options_obs_flagstrict.cfg", mc_env(), 1, "ObsFlagNeverFailsStrict"),
@@ -136,8 +141,46 @@ def model_check(ctx, js, thorough):
 # --------------------------------------------------------------------------- judging
 
 
-def sig_of(b):
-    return "C03:%s:%s" % (b["op"], "+".join(sorted(b["why"])))
+def wrap_shapes(js):
+    def has(p):
+        if isinstance(p, dict):
+            return p.get("k") == "wrap" or any(has(v) for v in p.values())
+        if isinstance(p, list):
+            return any(has(v) for v in p)
+        return False
+    return {s["id"] for s in js["shapes"] if has(s["p"])}
+
+
+def split_scope(js, path):
+    """-> (records inside the statement of C03, records observed only); the decision itself is the
+    in_scope flag of spec/OptionsJudge.tla, this split only keeps the two kinds in separate passes"""
+    ws = wrap_shapes(js)
+    a, b = path + ".scope", path + ".obs"
+    with open(path) as f, open(a, "w") as fa, open(b, "w") as fb:
+        for l in f:
+            if l.startswith('{"f":"run"') or l.startswith('{"f":"usage"'):
+                fb.write(l)
+                continue
+            if ws and (l.startswith('{"f":"parse') or l.startswith('{"f":"ctor"')):
+                i = l.index('"s":') + 4
+                j = i
+                while l[j].isdigit():
+                    j += 1
+                if int(l[i:j]) in ws:
+                    fb.write(l)
+                    continue
+            fa.write(l)
+    return a, b
+
+
+def observe(ctx, js, signature, rec, line):
+    """a disagreement outside the statement of C03: counted and written to the evidence, never a verdict"""
+    obs = ctx.extra.setdefault("observations", {})
+    o = obs.setdefault(signature, {"count": 0, "example": None})
+    o["count"] += 1
+    if o["example"] is None:
+        o["example"] = {"record": json.loads(line[:100000]) if len(line) < 100000 else line[:400], "about": describe(js, rec)[:600]}
+        vlib.log("OBSERVATION (outside the statement of C03, not a verdict) %s: %s %s" % (signature, describe(js, rec)[:300], line[:300]))
 
 
 def lines_at(path, wanted):
@@ -180,20 +223,40 @@ def judge_file(ctx, js, path, what, rc, out, nchunks=vlib.NCPU, count=True):
                 payload["records"].append({"s": int(m.group(1)), "a": json.loads(m.group(2)) if m.group(2) else []})
         kind = {66: "sanitizer", 67: "crash", 68: "hang", 124: "timeout"}.get(rc, "exit%d" % rc)
         san = re.search(r"(ERROR: \w+Sanitizer: [^\n]*|runtime error: [^\n]*)", out)
-        ctx.reject("C03:%s:%s" % (op, kind), "%s during %s (%s): %s; truncated record: %s" % (
-            kind, op, what, san.group(1) if san else out[-300:], (tail or "")[:300]), payload)
+        msg = "%s during %s (%s): %s; truncated record: %s" % (
+            kind, op, what, san.group(1) if san else out[-300:], (tail or "")[:300])
+        if op in ("run", "usage"):       # calls outside the statement of C03: observed only
+            o = ctx.extra.setdefault("observations", {}).setdefault("C03:%s:%s" % (op, kind), {"count": 0, "example": msg})
+            o["count"] += 1
+            vlib.log("OBSERVATION (not a verdict): " + msg)
+        else:
+            ctx.reject("C03:%s:%s" % (op, kind), msg, payload)
         with open(path, "w") as f:
             f.write("\n".join(lines) + ("\n" if lines else ""))
-    bad = vlib.judge_trace(ctx, JUDGE, JUDGE_CFG, path, nchunks=nchunks, boundary_key=None, timeout=2400)
-    texts = lines_at(path, [b["l"] for b in bad])
-    for b in bad:
-        line = texts.get(b["l"], "{}")
-        if any(w.startswith("HARNESS-") for w in b["why"]):
-            raise vlib.Infra("harness / generator defect (%s) at line %d of %s: %s" % (",".join(b["why"]), b["l"], path, line[:300]))
-        rec = json.loads(line)
-        payload = {"records": [{"s": rec["s"], "a": rec.get("a", [])}] if "s" in rec else [], "record": rec}
-        ctx.reject(sig_of(b), "%s: the specification cannot explain %s (%s); %s; record: %s" % (
-            what, b["op"], ",".join(b["why"]), describe(js, rec), line[:400]), payload)
+    # records of kinds / shapes outside the property's statement (observed only) are judged in a
+    # separate pass so that their disagreements can never crowd out a verdict (RecordLoop keeps at
+    # most 300 rejected records per chunk verbatim)
+    parts = split_scope(js, path)
+    for sub, nch in ((parts[0], nchunks), (parts[1], max(1, nchunks // 2))):
+        if os.path.getsize(sub) == 0:
+            continue
+        bad = vlib.judge_trace(ctx, JUDGE, JUDGE_CFG, sub, nchunks=nch, boundary_key=None, timeout=2400)
+        texts = lines_at(sub, [b["l"] for b in bad])
+        for b in bad:
+            line = texts.get(b["l"], "{}")
+            if any("HARNESS-" in w for w in b["why"]):
+                raise vlib.Infra("harness / generator defect (%s) at line %d of %s: %s" % (",".join(b["why"]), b["l"], sub, line[:300]))
+            rec = json.loads(line)
+            inside = sorted(w for w in b["why"] if not w.startswith("OBS:"))
+            outside = sorted(w[4:] for w in b["why"] if w.startswith("OBS:"))
+            if outside:
+                observe(ctx, js, "C03:%s:%s" % (b["op"], "+".join(outside)), rec, line)
+            if inside:
+                payload = {"records": [{"s": rec["s"], "a": rec.get("a", [])}] if "s" in rec else [], "record": rec}
+                ctx.reject("C03:%s:%s" % (b["op"], "+".join(inside)), "%s: the specification cannot explain %s (%s); %s; record: %s" % (
+                    what, b["op"], ",".join(inside), describe(js, rec), line[:400]), payload)
+    for sub in parts:
+        os.unlink(sub)
     n = 0
     if count:
         n = count_classes(ctx, path)
@@ -229,8 +292,20 @@ def count_classes(ctx, path, cap=3000000):
                 ln = 0 if a1 == a0 + 1 else l.count(",", a0, a1) + 1
                 ctx.count_class((l[6:12], l[i:j], ln, "fail"))
                 continue
+            if l.startswith('{"f":"run"') and '"k":"ok"' not in l:
+                i = l.index('"s":') + 4
+                j = l.index(",", i)
+                a0 = l.index("[", j)
+                a1 = l.index("]", a0)
+                ln = 0 if a1 == a0 + 1 else l.count(",", a0, a1) + 1
+                ctx.count_class(("run", l[i:j], ln, "miss" if '"k":"miss"' in l else "other"))
+                continue
             r = json.loads(l)
-            if r["f"] in ("parse", "parse_help"):
+            if r["f"] == "run":
+                ctx.count_class(("run", str(r["s"]), len(r["a"]), "ok", len(r["st"]), shape_of(r.get("rec"))))
+            elif r["f"] == "usage":
+                ctx.count_class(("usage", r["s"], len(r["lines"])))
+            elif r["f"] in ("parse", "parse_help"):
                 ctx.count_class((r["f"][:6], str(r["s"]), len(r["a"]), "help" if r.get("help") else shape_of(r.get("rec"))))
             elif r["f"] == "ctor":
                 ctx.count_class(("ctor", r["s"], r["ctor"]))
@@ -247,10 +322,39 @@ def self_test_judge(ctx, js, path):
             if len(good) >= 4000:
                 break
     picks = good[::max(1, len(good) // 12)][:12]
+    extra = {}
+    with open(path) as f:
+        for l in f:
+            if l.startswith('{"f":"run"') and '"k":"miss"' in l and '"a":[]' not in l:
+                extra.setdefault("run_miss", l.rstrip("\n"))
+            elif l.startswith('{"f":"run"') and '"k":"ok"' in l and '"st":[]' not in l:
+                extra.setdefault("run_ok", l.rstrip("\n"))
+            elif l.startswith('{"f":"usage"') and l.count('"ind"') >= 3:
+                extra.setdefault("usage", l.rstrip("\n"))
+            elif l.startswith('{"f":"parse_help"') and '"text"' in l:
+                extra.setdefault("help", l.rstrip("\n"))
+            if len(extra) == 4:
+                break
+    picks += [extra[k] for k in sorted(extra)]
     bad_lines = []
     for i, l in enumerate(picks):
         r = json.loads(l)
-        if i % 3 == 0:
+        if r["f"] == "run" and r["k"] == "miss":
+            r["k"] = "other"
+            del r["st"]
+        elif r["f"] == "run":
+            r["st"] = r["st"][1:]
+        elif r["f"] == "usage":
+            done = False     # drop the first parameter name (first word longer than one character)
+            for ln in r["lines"]:
+                for k, w in enumerate(ln["w"]):
+                    if len(w) >= 2 and not done:
+                        del ln["w"][k]
+                        done = True
+                        break
+        elif r["f"] == "parse_help" and "text" in r:
+            r["text"] = r["text"] + [{"ind": 0, "w": [[45, 45, 120]]}]
+        elif i % 3 == 0:
             r["ok"] = False
             del r["rec"]
         elif i % 3 == 1:
@@ -309,8 +413,11 @@ def run(ctx):
     thorough = ctx.tier == "thorough"
     js, binary = prepare(ctx)
     nshapes = len(js["shapes"])
-    # the rule set itself
-    model_check(ctx, js, thorough)
+    ctx.extra.setdefault("observations", {})   # disagreements outside the statement of C03 (never verdicts)
+    # the rule set itself (C03_SKIP_MC=1: debugging aid for runs against scratch worktrees - the
+    # model checks do not depend on the tree under test)
+    if os.environ.get("C03_SKIP_MC") != "1":
+        model_check(ctx, js, thorough)
     # the public headers
     hp = os.path.join(ctx.workdir, "headers.ndjson")
     vlib.write_ndjson(hp, [headers_probe()])
@@ -319,7 +426,7 @@ def run(ctx):
     total = 0
     if not thorough:
         tp = os.path.join(ctx.workdir, "recorded.ndjson")
-        rc, out = vlib.run_harness(binary, ["record", tp, 4, 4, 200, 10, ctx.seed, 0, 1], timeout=600)
+        rc, out = vlib.run_harness(binary, ["record", tp, 4, 4, 200, 10, ctx.seed, 0, 1, 3], timeout=600)
         total += judge_file(ctx, js, tp, "argv <= 4 exhaustive + random", rc, out)
         guarded_self_test(ctx, js, tp)
         sample_from(ctx, js, tp)
@@ -328,7 +435,7 @@ def run(ctx):
         paths = [os.path.join(ctx.workdir, "recorded_%d.ndjson" % k) for k in range(parts)]
 
         def rec(k):
-            return vlib.run_harness(binary, ["record", paths[k], 5, 6, 5000, 10, ctx.seed, k, parts], timeout=3000)
+            return vlib.run_harness(binary, ["record", paths[k], 5, 6, 5000, 12, ctx.seed, k, parts, 4], timeout=3000)
         outs = vlib.parallel(rec, list(range(parts)), workers=parts)
         for k in range(parts):
             rc, out = outs[k]
